@@ -5,7 +5,10 @@ import Lemmas.NotifierInv
 namespace NtH
 open Nt
 
-theorem assocGet_deref (pm : List (Name × Addr)) (heap : Addr → List (Nat × Int)) (n : Name) :
+section generic
+variable {κ ν : Type} [DecidableEq κ]
+
+theorem assocGet_deref (pm : List (κ × Addr)) (heap : Addr → ν) (n : κ) :
     assocGet (pm.map (fun e => (e.1, heap e.2))) n = (assocGet pm n).map heap := by
   induction pm with
   | nil => rfl
@@ -17,7 +20,7 @@ theorem assocGet_deref (pm : List (Name × Addr)) (heap : Addr → List (Nat × 
     · exact ih
 
 /-- writing the cell `a` that name `n` references = `assocSet` of the dereferenced list -/
-theorem deref_write (pm : List (Name × Addr)) (heap : Addr → List (Nat × Int)) (n : Name) (a : Addr) (v : List (Nat × Int))
+theorem deref_write (pm : List (κ × Addr)) (heap : Addr → ν) (n : κ) (a : Addr) (v : ν)
     (hg : assocGet pm n = some a) (hn : (pm.map (·.2)).Nodup) :
     pm.map (fun e => (e.1, hset heap a v e.2)) = assocSet (pm.map (fun e => (e.1, heap e.2))) n v := by
   induction pm with
@@ -45,7 +48,7 @@ theorem deref_write (pm : List (Name × Addr)) (heap : Addr → List (Nat × Int
       rfl
 
 /-- a name `n` the map does not know yet gets a fresh cell = `assocSet` of the dereferenced list -/
-theorem deref_alloc (pm : List (Name × Addr)) (heap : Addr → List (Nat × Int)) (n : Name) (nx : Addr) (v : List (Nat × Int))
+theorem deref_alloc (pm : List (κ × Addr)) (heap : Addr → ν) (n : κ) (nx : Addr) (v : ν)
     (hg : assocGet pm n = none) (hb : ∀ e ∈ pm, e.2 < nx) :
     (assocSet pm n nx).map (fun e => (e.1, hset heap nx v e.2)) = assocSet (pm.map (fun e => (e.1, heap e.2))) n v := by
   induction pm with
@@ -61,7 +64,7 @@ theorem deref_alloc (pm : List (Name × Addr)) (heap : Addr → List (Nat × Int
       rw [← ih hg (fun e he => hb e (List.mem_cons_of_mem _ he))]
       rfl
 
-theorem eq_of_nodup_addrs (l : List (Name × Addr)) (hn : (l.map (·.2)).Nodup) (x y : Name × Addr) (hx : x ∈ l) (hy : y ∈ l)
+theorem eq_of_nodup_addrs (l : List (κ × Addr)) (hn : (l.map (·.2)).Nodup) (x y : κ × Addr) (hx : x ∈ l) (hy : y ∈ l)
     (h : x.2 = y.2) : x = y := by
   induction l with
   | nil => cases hx
@@ -74,7 +77,7 @@ theorem eq_of_nodup_addrs (l : List (Name × Addr)) (hn : (l.map (·.2)).Nodup) 
     · exact ih hn.2 hx hy
 
 /-- dropping name `n` (whose cell `a` may have been written) = `assocDel` of the dereferenced list -/
-theorem deref_drop (pm : List (Name × Addr)) (heap : Addr → List (Nat × Int)) (n : Name) (a : Addr) (v : List (Nat × Int))
+theorem deref_drop (pm : List (κ × Addr)) (heap : Addr → ν) (n : κ) (a : Addr) (v : ν)
     (hg : assocGet pm n = some a) (hn : (pm.map (·.2)).Nodup) :
     (assocDel pm n).map (fun e => (e.1, hset heap a v e.2)) = assocDel (pm.map (fun e => (e.1, heap e.2))) n := by
   have hmem : (n, a) ∈ pm := mem_of_assocGet _ _ _ hg
@@ -91,23 +94,80 @@ theorem deref_drop (pm : List (Name × Addr)) (heap : Addr → List (Nat × Int)
     exact hne (by rw [this])
   simp [hset, this]
 
+/-- the generic update refines `assocSet … (f (getD z))` of the dereferenced list -/
+theorem deref_hUpd (H : HWorld κ ν) (hs : Sep H) (i : Nat) (k : κ) (f : ν → ν) (z : ν) :
+    deref (hUpd H i k f z) i = assocSet (deref H i) k (f ((assocGet (deref H i) k).getD z)) := by
+  unfold hUpd
+  have hgd : assocGet (deref H i) k = (assocGet (H.pm i) k).map H.heap := assocGet_deref _ _ _
+  rw [hgd]
+  cases hg : assocGet (H.pm i) k with
+  | some a => exact deref_write _ _ k a _ hg (hs.nodupA i)
+  | none =>
+    simp only [deref, upd, if_true, Option.map_none, Option.getD_none]
+    exact deref_alloc _ _ k _ _ hg (fun e he => hs.bound i e.2 ⟨e.1, he⟩)
+
+theorem deref_hMergeG (comb : ν → ν → ν) (H : HWorld κ ν) (hs : Sep H) (i : Nat) (e : κ × Addr) :
+    deref (hMergeG comb true i H e) i =
+      (match assocGet (deref H i) e.1 with
+       | some mine => assocSet (deref H i) e.1 (comb mine (H.heap e.2))
+       | none => assocSet (deref H i) e.1 (H.heap e.2)) := by
+  unfold hMergeG
+  have hgd : assocGet (deref H i) e.1 = (assocGet (H.pm i) e.1).map H.heap := assocGet_deref _ _ _
+  simp only [hgd]
+  cases hg : assocGet (H.pm i) e.1 with
+  | some a => exact deref_write _ _ e.1 a _ hg (hs.nodupA i)
+  | none =>
+    simp only [deref, upd, if_true, Option.map_none]
+    exact deref_alloc _ _ e.1 _ _ hg (fun x hx => hs.bound i x.2 ⟨x.1, hx⟩)
+
+theorem deref_hDel (H : HWorld κ ν) (i : Nat) (k : κ) : deref (hDel H i k) i = assocDel (deref H i) k := by
+  simp only [deref, hDel, upd, if_true]
+  unfold assocDel
+  rw [List.filter_map]
+  rfl
+
+theorem fold_ref {α : Type} (f : HWorld κ ν → α → HWorld κ ν) (g : List (κ × ν) → α → List (κ × ν)) (i : Nat)
+    (hf : ∀ H x, Sep H → Frame H (f H x) i) (hd : ∀ H x, Sep H → deref (f H x) i = g (deref H i) x)
+    (l : List α) (H : HWorld κ ν) (hs : Sep H) :
+    deref (l.foldl f H) i = l.foldl g (deref H i) ∧ Frame H (l.foldl f H) i := by
+  induction l generalizing H with
+  | nil => exact ⟨rfl, frame_refl H i hs⟩
+  | cons x l ih =>
+    obtain ⟨a, b⟩ := ih (f H x) (hf H x hs).sep
+    simp only [List.foldl_cons]
+    exact ⟨by rw [a, hd H x hs], frame_trans (hf H x hs) b⟩
+
+/-- the merge loop over the source's entries: the cells of the source are not touched while the destination is written -/
+theorem mergeG_ref (comb : ν → ν → ν) (g : List (κ × ν) → κ × ν → List (κ × ν))
+    (hg : ∀ l (e : κ × ν), g l e = (match assocGet l e.1 with
+       | some mine => assocSet l e.1 (comb mine e.2)
+       | none => assocSet l e.1 e.2))
+    (H0 : HWorld κ ν) (hs0 : Sep H0) (i m : Nat) (him : i ≠ m) (l : List (κ × Addr))
+    (hl : ∀ e ∈ l, e ∈ H0.pm m) (H : HWorld κ ν) (hfr : Frame H0 H i) :
+    deref (l.foldl (hMergeG comb true i) H) i = (l.map (fun e => (e.1, H0.heap e.2))).foldl g (deref H i) ∧
+    Frame H0 (l.foldl (hMergeG comb true i) H) i := by
+  induction l generalizing H with
+  | nil => exact ⟨rfl, hfr⟩
+  | cons e l ih =>
+    have hown : Owns H0 m e.2 := ⟨e.1, hl e (by simp)⟩
+    have hcell : H.heap e.2 = H0.heap e.2 :=
+      hfr.cells e.2 (hs0.bound m _ hown) (fun hi => him (hs0.disj i m _ hi hown))
+    have h1 := frame_hMergeG comb H hfr.sep i e
+    obtain ⟨a, b⟩ := ih (fun x hx => hl x (List.mem_cons_of_mem _ hx)) (hMergeG comb true i H e) (frame_trans hfr h1)
+    simp only [List.foldl_cons, List.map_cons]
+    exact ⟨by rw [a, deref_hMergeG comb H hfr.sep i e, hcell, hg], b⟩
+
+end generic
+
 end NtH
 
 namespace NtH
 open Nt
 
-theorem deref_hRegOne (H : HWorld) (hs : Sep H) (i : Nat) (n : Name) (t : Nat) (p : Int) :
-    deref (hRegOne H i n t p) i = registerOne (deref H i) n t p := by
-  unfold hRegOne registerOne
-  have hgd : assocGet (deref H i) n = (assocGet (H.pm i) n).map H.heap := assocGet_deref _ _ _
-  rw [hgd]
-  cases hg : assocGet (H.pm i) n with
-  | some a => exact deref_write _ _ n a _ hg (hs.nodupA i)
-  | none =>
-    simp only [deref, upd, if_true, Option.map_none, Option.getD_none]
-    exact deref_alloc _ _ n _ _ hg (fun e he => hs.bound i e.2 ⟨e.1, he⟩)
+theorem deref_hRegOne (H : PW) (hs : Sep H) (i : Nat) (n : Name) (t : Nat) (p : Int) :
+    deref (hRegOne H i n t p) i = registerOne (deref H i) n t p := deref_hUpd H hs i n _ _
 
-theorem deref_hUnregOne (H : HWorld) (hs : Sep H) (i t : Nat) (n : Name) :
+theorem deref_hUnregOne (H : PW) (hs : Sep H) (i t : Nat) (n : Name) :
     deref (hUnregOne i t H n) i = unregStep t (deref H i) n := by
   unfold hUnregOne unregStep
   have hgd : assocGet (deref H i) n = (assocGet (H.pm i) n).map H.heap := assocGet_deref _ _ _
@@ -122,42 +182,17 @@ theorem deref_hUnregOne (H : HWorld) (hs : Sep H) (i t : Nat) (n : Name) :
     · simp only [he, if_false]
       exact deref_write _ _ n a _ hg (hs.nodupA i)
 
-theorem deref_hMergeStep (H : HWorld) (hs : Sep H) (i : Nat) (e : Name × Addr) :
+theorem deref_hMergeStep (H : PW) (hs : Sep H) (i : Nat) (e : Name × Addr) :
     deref (hMergeStep true i H e) i = stepMerge (deref H i) (e.1, H.heap e.2) := by
   unfold hMergeStep stepMerge
-  have hgd : assocGet (deref H i) e.1 = (assocGet (H.pm i) e.1).map H.heap := assocGet_deref _ _ _
-  simp only [hgd]
-  cases hg : assocGet (H.pm i) e.1 with
-  | some a => exact deref_write _ _ e.1 a _ hg (hs.nodupA i)
-  | none =>
-    simp only [deref, upd, if_true, Option.map_none]
-    exact deref_alloc _ _ e.1 _ _ hg (fun x hx => hs.bound i x.2 ⟨x.1, hx⟩)
+  rw [deref_hMergeG overlay H hs i e]
+  cases assocGet (deref H i) e.1 <;> rfl
 
-theorem fold_ref {α : Type} (f : HWorld → α → HWorld) (g : PMap → α → PMap) (i : Nat)
-    (hf : ∀ H x, Sep H → Frame H (f H x) i) (hd : ∀ H x, Sep H → deref (f H x) i = g (deref H i) x)
-    (l : List α) (H : HWorld) (hs : Sep H) :
-    deref (l.foldl f H) i = l.foldl g (deref H i) ∧ Frame H (l.foldl f H) i := by
-  induction l generalizing H with
-  | nil => exact ⟨rfl, frame_refl H i hs⟩
-  | cons x l ih =>
-    obtain ⟨a, b⟩ := ih (f H x) (hf H x hs).sep
-    simp only [List.foldl_cons]
-    exact ⟨by rw [a, hd H x hs], frame_trans (hf H x hs) b⟩
-
-theorem merge_ref (H0 : HWorld) (hs0 : Sep H0) (i m : Nat) (him : i ≠ m) (l : List (Name × Addr))
-    (hl : ∀ e ∈ l, e ∈ H0.pm m) (H : HWorld) (hfr : Frame H0 H i) :
+theorem merge_ref (H0 : PW) (hs0 : Sep H0) (i m : Nat) (him : i ≠ m) (l : List (Name × Addr))
+    (hl : ∀ e ∈ l, e ∈ H0.pm m) (H : PW) (hfr : Frame H0 H i) :
     deref (l.foldl (hMergeStep true i) H) i = (l.map (fun e => (e.1, H0.heap e.2))).foldl stepMerge (deref H i) ∧
-    Frame H0 (l.foldl (hMergeStep true i) H) i := by
-  induction l generalizing H with
-  | nil => exact ⟨rfl, hfr⟩
-  | cons e l ih =>
-    have hown : Owns H0 m e.2 := ⟨e.1, hl e (by simp)⟩
-    have hcell : H.heap e.2 = H0.heap e.2 :=
-      hfr.cells e.2 (hs0.bound m _ hown) (fun hi => him (hs0.disj i m _ hi hown))
-    have h1 := frame_hMergeStep H hfr.sep i e
-    obtain ⟨a, b⟩ := ih (fun x hx => hl x (List.mem_cons_of_mem _ hx)) (hMergeStep true i H e) (frame_trans hfr h1)
-    simp only [List.foldl_cons, List.map_cons]
-    exact ⟨by rw [a, deref_hMergeStep H hfr.sep i e, hcell], b⟩
+    Frame H0 (l.foldl (hMergeStep true i) H) i :=
+  mergeG_ref overlay stepMerge (fun l e => by unfold stepMerge; cases assocGet l e.1 <;> rfl) H0 hs0 i m him l hl H hfr
 
 /-- the heap operations a value-level operation amounts to (`w`: the value world, for the name list `Unregister` walks) -/
 def toH (w : World) : Op → List HOp
@@ -170,7 +205,7 @@ def toH (w : World) : Op → List HOp
   | _ => []
 
 /-- the refinement relation: separation, and every notifier's dereferenced production map IS the value model's -/
-def Ref (w : World) (H : HWorld) : Prop := Sep H ∧ ∀ i, deref H i = (w i).prod
+def Ref (w : World) (H : PW) : Prop := Sep H ∧ ∀ i, deref H i = (w i).prod
 
 theorem register_prod (s : NSt) (t : Nat) (p : Int) (raws : List (List Nat)) :
     (register s t p raws).prod = registerAll s.prod (normNames raws) t p := by
@@ -195,7 +230,7 @@ end NtH
 namespace NtH
 open Nt
 
-theorem ref_of_frame (w : World) (H H' : HWorld) (i : Nat) (s' : NSt) (hr : Ref w H) (hf : Frame H H' i)
+theorem ref_of_frame (w : World) (H H' : PW) (i : Nat) (s' : NSt) (hr : Ref w H) (hf : Frame H H' i)
     (hi : deref H' i = s'.prod) : Ref (w.set i s') H' := by
   refine ⟨hf.sep, fun j => ?_⟩
   by_cases hj : j = i
@@ -203,12 +238,12 @@ theorem ref_of_frame (w : World) (H H' : HWorld) (i : Nat) (s' : NSt) (hr : Ref 
   · simp only [World.set, if_neg hj]
     rw [deref_of_frame H H' i j hr.1 hf hj]; exact hr.2 j
 
-theorem ref_same (w : World) (H : HWorld) (i : Nat) (s' : NSt) (hr : Ref w H) (hp : s'.prod = (w i).prod) :
+theorem ref_same (w : World) (H : PW) (i : Nat) (s' : NSt) (hr : Ref w H) (hp : s'.prod = (w i).prod) :
     Ref (w.set i s') H :=
   ref_of_frame w H H i s' hr (frame_refl H i hr.1) (by rw [hr.2 i, hp])
 
 /-- **one operation**: the heap model with copying merges stays in the refinement relation with the value model -/
-theorem ref_step (pan : Nat → Bool) (w : World) (H : HWorld) (hr : Ref w H) (op : Op) :
+theorem ref_step (pan : Nat → Bool) (w : World) (H : PW) (hr : Ref w H) (op : Op) :
     Ref (step pan w op).1 ((toH w op).foldl hstep H) := by
   cases op with
   | register i t p raws =>
@@ -244,23 +279,23 @@ theorem ref_step (pan : Nat → Bool) (w : World) (H : HWorld) (hr : Ref w H) (o
       rw [hr.2 i, hr.2 m]; rfl
   | reset i =>
     simp only [step, toH, List.foldl_cons, List.foldl_nil]
-    exact ref_of_frame w H _ i _ hr (frame_hstep H hr.1 (.reset i) rfl) (by simp [hstep, deref, upd, reset])
+    exact ref_of_frame w H _ i _ hr (frame_reset H hr.1 i) (by simp [hstep, deref, upd, reset])
   | setEnabled i b => exact ref_same w H i _ hr rfl
   | startBatch i => exact ref_same w H i _ hr (startBatch_prod _)
   | endBatch i => exact ref_same w H i _ hr (endBatch_prod _)
   | notify i raw => exact hr
 
 /-- the heap world that accompanies a history of the value model -/
-def hrunAlong (pan : Nat → Bool) : World → HWorld → List Op → HWorld
+def hrunAlong (pan : Nat → Bool) : World → PW → List Op → PW
   | _, H, [] => H
   | w, H, op :: ops => hrunAlong pan (step pan w op).1 ((toH w op).foldl hstep H) ops
 
-theorem ref_run (pan : Nat → Bool) (ops : List Op) (w : World) (H : HWorld) (hr : Ref w H) :
+theorem ref_run (pan : Nat → Bool) (ops : List Op) (w : World) (H : PW) (hr : Ref w H) :
     Ref (runFrom pan w ops).1 (hrunAlong pan w H ops) := by
   induction ops generalizing w H with
   | nil => exact hr
   | cons op ops ih => simp only [runFrom, hrunAlong]; exact ih _ _ (ref_step pan w H hr op)
 
-theorem ref_init : Ref World.init HWorld.init := ⟨sep_init, fun _ => rfl⟩
+theorem ref_init : Ref World.init (HWorld.init []) := ⟨sep_init [], fun _ => rfl⟩
 
 end NtH
